@@ -59,7 +59,7 @@ func (c *Ctx) runJobs(jobs []job, each func(jc *jobCase) (int64, int64, *Violati
 			}
 		}
 		spaced := jb.opts.has('x')
-		var fp, fe, fn int64
+		var fp, fe, fn, fhit, fmiss int64
 		var once sync.Once
 		done := c.parallel(len(jb.pats), func(i int) {
 			p := jb.pats[i]
@@ -78,6 +78,21 @@ func (c *Ctx) runJobs(jobs []job, each func(jc *jobCase) (int64, int64, *Violati
 				}
 				if capped {
 					atomic.AddInt64(&langCapped, 1)
+				}
+				// vacuity guard: does the pattern match on at least one of its inputs?
+				if re, err := regexp2.Compile(p.Src, append(jb.opts.compileOptions(), jb.extra...)...); err == nil {
+					hit := false
+					for _, in := range jc.inputs {
+						if ok, _ := re.MatchRunes(in); ok {
+							hit = true
+							break
+						}
+					}
+					if hit {
+						atomic.AddInt64(&fhit, 1)
+					} else {
+						atomic.AddInt64(&fmiss, 1)
+					}
 				}
 			}
 			if p.AST != nil {
@@ -112,6 +127,11 @@ func (c *Ctx) runJobs(jobs []job, each func(jc *jobCase) (int64, int64, *Violati
 			c.Report(Violation{Leg: "panic", Key: "panic|" + string(jb.opts) + "|" + p.Src, Pattern: p.Src, Options: string(jb.opts), Detail: panicText(r) + " (profile " + jb.prof.name + ")"})
 		})
 		fs.Patterns, fs.Evaluations, fs.Nontrivial, fs.Complete = fp, fe, fn, done
+		if jb.prof.input == nil {
+			fs.Note = fmt.Sprintf("%d of the compiling patterns match on at least one of their inputs, %d on none", fhit, fmiss)
+			c.Outcome("text patterns matching on at least one of their inputs", fhit)
+			c.Outcome("text patterns matching on none of their inputs", fmiss)
+		}
 		if !done {
 			c.NotExhaustive("internal deadline reached inside " + famName)
 		}
